@@ -296,6 +296,35 @@ fn sudo_atomic() {
     }
 }
 
+/// found missing by seed C01c: native-module requests (staking sudo and messages) that fail AFTER a
+/// history in which time has passed — the point at which the staking module has bookkeeping to write
+/// (rewards of the elapsed period) before it reaches the check that rejects the request
+fn staking_requests_after_history() {
+    use crate::stk::{Cfg, DtSel, Op, PSel, Stk};
+    const AMT: u128 = 1u128 << 32;
+    let mut w = Stk::new(Cfg::default());
+    for op in [Op::Delegate { d: 0, v: 0 }, Op::Delegate { d: 1, v: 0 }, Op::Advance { dt: DtSel::Sym(0, 400 * 86_400) }] {
+        if !w.apply(&op, AMT) {
+            return;
+        }
+    }
+    // every Err outcome is checked against the byte snapshot taken before the request (inside apply)
+    let reqs = [
+        Op::Slash { v: 0, p: PSel::Boundary },
+        Op::Slash { v: 2, p: PSel::Fixed(1) },
+        Op::Undelegate { d: 0, v: 0 },
+        Op::Redelegate { d: 1, src: 0, dst: 1 },
+        Op::Withdraw { d: 1, v: 1 },
+        Op::Delegate { d: 0, v: 0 },
+        Op::DelegateForeignDenom { d: 0, v: 0 },
+    ];
+    let op = reqs[choose(reqs.len())].clone();
+    if !w.apply(&op, 2 * AMT) {
+        return;
+    }
+    witness("request_done");
+}
+
 /// the Executor helpers are thin wrappers: same atomicity
 fn helpers() {
     let mut t = top(2);
@@ -338,6 +367,11 @@ pub fn scenarios(tier: &str) -> Vec<Scenario> {
     }));
     v.push(Scenario::new("sudo_and_wasm_sudo", &["sudo_ok", "sudo_err"], sudo_atomic));
     v.push(Scenario::new("executor_helpers", &["helper_ok", "helper_err"], helpers));
+    v.push(Scenario::new(
+        "staking_sudo_and_messages_failing_after_time_has_passed",
+        &["request_done", "slash_err", "slash_ok", "undelegate_err", "redelegate_err", "withdraw_err", "foreign_denom_err"],
+        staking_requests_after_history,
+    ));
     if tier == "thorough" {
         v.push(Scenario::new("execute_multi_3_msgs", &["multi_ok", "multi_err"], || {
             multi(3, Opts { max_depth: 1, max_nodes: 2, max_children: 1, vary_output: false, vary_ids: false, reply_subs: false, inst_leaves: false })
